@@ -16,6 +16,8 @@ import AndaVerif.Model.Authz
 
 namespace AndaVerif.Authz
 
+open AndaVerif.Gen.GateTables (permissionNames)
+
 /-- An evaluator reaches elements only through `admit` when its answer is a function of the admitted,
 redacted universe. This is the hypothesis under which `noninterference` is a theorem. -/
 def ThroughAdmit {Val α : Type} (oR : Val → Val) (pro : Bool)
@@ -71,5 +73,27 @@ def admitAsOf (byVersionLabel : Bool) (p : EA) (pa : Auth) (now : Nat) (seq : Na
     else match e.current with
       | none => false
       | some cur => (mayRead p cur pa now).isSome
+
+/-! ## 4. conferral with the bounds test hoisted out of the per-candidate test
+
+`resolve_delegation` asks, per delegated action, for ONE delegable candidate of the delegator that holds the
+action AND contains the Delegation's scope, conditions and constraints (`conferrable`). The hoisted form
+asks the two questions separately — some delegable candidate holds the action, some delegable candidate
+contains the bounds — so two unrelated authorities can be mixed. -/
+
+def conferrableHoisted (pv : ParentView) (scope : Scope) (cond : Conditions) (cons : Constraints) (action : String) : Bool :=
+  permissionNames.contains action &&
+  ((pv.candidates.any (fun c => c.delegationAllowed && c.actions.contains action) &&
+    pv.candidates.any (fun c => c.delegationAllowed && c.scope.contains scope && c.conditions.contains cond &&
+      c.constraints.contains cons))
+    || pv.isOwner)
+
+/-- The candidate a direct Delegation resolves to, given what the delegator holds; `hoisted = false` is
+the code (`resolveDelegation`'s root branch), `hoisted = true` the mixed form. -/
+def conferDirect (hoisted : Bool) (pv : ParentView) (d : DelegationRow) : Option Candidate :=
+  let test := if hoisted then conferrableHoisted pv d.scope d.conditions d.constraints
+              else conferrable pv d.scope d.conditions d.constraints
+  let actions := d.actions.filter test
+  if actions.isEmpty then none else some (delegatedCandidate d actions)
 
 end AndaVerif.Authz
